@@ -11,13 +11,18 @@
 (*                                                                            *)
 (* Scalar multiplication has two definitions:                                 *)
 (*   Mul(k, Q)   "Q added to itself k times" (what the property states),      *)
-(*   MulT(k, Q)  via the discrete-log table of the cyclic group,              *)
+(*   SMul(k, Q)  the same by halving k (k*Q = 2*((k div 2)*Q) + (k mod 2)*Q), *)
 (* proved equal by TLC for k in -2N..2N on every curve of MC_EC_*.cfg (lemma  *)
-(* MulIsIterated, and inductively MulStep for larger curves); the larger      *)
-(* specs (ECDSA, ECRegs, the replay tables, the trace specs) use MulT.        *)
+(* MulIsIterated; inductively by MulStep on the larger curves); the other     *)
+(* specs (ECDSA, ECRegs, the replay tables, the trace specs) use SMul, which  *)
+(* costs log k additions.                                                     *)
+(* TLC notes: {x \in S : p} stays lazy in TLC (re-filtered at every use), so  *)
+(* Affine/Points are wrapped as {x : x \in ..} which TLC enumerates once;     *)
+(* definitions that depend on a RECURSIVE operator or on TLCEval are not      *)
+(* cached by TLC at all, so none of the sets below depends on Mul/SMul.       *)
 (* All products are reduced early so that every intermediate stays below      *)
 (* 2^31 for P < 46340 (TLC integers are 32-bit).                              *)
-EXTENDS Integers, Sequences, FiniteSets, TLC
+EXTENDS Integers, Sequences, FiniteSets
 
 CONSTANTS P, A, B, Gx, Gy, N
 
@@ -27,9 +32,8 @@ Fp  == 0..(P - 1)
 (* -------- field arithmetic -------- *)
 \* the multiplicative inverse modulo a prime m, by its defining property
 InvTab(m) == [a \in 1..(m - 1) |-> CHOOSE b \in 1..(m - 1) : (a * b) % m = 1]
-\* TLCEval: TLC keeps [x \in S |-> e] and {x \in S : e} lazy and would re-evaluate e on every use
-InvP == TLCEval(InvTab(P))
-InvN == TLCEval(InvTab(N))
+InvP == InvTab(P)
+InvN == InvTab(N)
 FInv(a) == InvP[a % P]                 \* a is not a multiple of P
 \* general modulus (not necessarily prime): 0 stands for "no inverse exists"
 InvMod(a, m) == IF \E b \in 0..(m - 1) : ((a % m) * b) % m = 1 % m
@@ -43,8 +47,8 @@ Rhs(x) == LET xr == x % P
 OnCurveXY(x, y) == ((y % P) * (y % P)) % P = Rhs(x)
 OnCurve(pt) == pt = Inf \/ OnCurveXY(pt[1], pt[2])
 
-Affine == TLCEval({pt \in Fp \X Fp : OnCurveXY(pt[1], pt[2])})
-Points == TLCEval({Inf} \cup Affine)
+Affine == {pt : pt \in {q \in Fp \X Fp : OnCurveXY(q[1], q[2])}}
+Points == {pt : pt \in {Inf} \cup Affine}
 G == <<Gx, Gy>>
 
 (* -------- the group law -------- *)
@@ -73,12 +77,16 @@ Mul(k, Q) == IF k = 0 THEN Inf
              ELSE IF k > 0 THEN Add(Mul(k - 1, Q), Q)
              ELSE Neg(Mul(0 - k, Q))
 
-(* -------- the same through discrete logarithms -------- *)
-GPow[k \in 0..(N - 1)] == IF k = 0 THEN Inf ELSE Add(GPow[k - 1], G)
-GTab == TLCEval([k \in 0..(N - 1) |-> GPow[k]])
-DLog == TLCEval([pt \in Points |-> CHOOSE k \in 0..(N - 1) : GTab[k] = pt])
-MulT(k, Q) == GTab[((k % N) * DLog[Canon(Q)]) % N]
-GMul(k) == GTab[k % N]
+(* -------- the same by halving the scalar -------- *)
+RECURSIVE SMul(_, _)
+SMul(k, Q) == IF k = 0 THEN Inf
+              ELSE IF k < 0 THEN Neg(SMul(0 - k, Q))
+              ELSE LET h == SMul(k \div 2, Q)
+                       d == Add(h, h)
+                   IN IF k % 2 = 1 THEN Add(d, Q) ELSE d
+GMul(k) == SMul(k % N, G)
+\* the points in the order Inf, G, 2G, ... (N-1)G
+PtSeq == [i \in 1..N |-> SMul(i - 1, G)]
 
 (* -------- recovering points from x -------- *)
 \* << even-y point, odd-y point >> or << >> when x is not the abscissa of a point
@@ -92,7 +100,7 @@ Lifts == {-1, 0, 1}
 Lift(p, i, j) == IF p = Inf THEN Inf ELSE <<p[1] + i * P, p[2] + j * P>>
 
 Cyclic        == /\ Cardinality(Points) = N
-                 /\ {GTab[k] : k \in 0..(N - 1)} = Points
+                 /\ {SMul(k, G) : k \in 0..(N - 1)} = Points
                  /\ G \in Affine
 NonSingular   == (4 * ((((A * A) % P) * A) % P) + 27 * ((B * B) % P)) % P # 0
 Closure(p, q) == Add(p, q) \in Points /\ Neg(p) \in Points
@@ -100,28 +108,30 @@ Commut(p, q)  == Add(p, q) = Add(q, p)
 Assoc(p, q)   == \A r \in Points : Add(Add(p, q), r) = Add(p, Add(q, r))
 Identity(p)   == Add(p, Inf) = p /\ Add(Inf, p) = p /\ Neg(Inf) = Inf
 Inverse(p)    == Add(p, Neg(p)) = Inf /\ Add(Neg(p), p) = Inf /\ Neg(Neg(p)) = p /\ Sub(p, p) = Inf
-\* the result is the same group element whichever integer representatives are presented
-ReprInvariant(p, q) == \A i1 \in Lifts, j1 \in Lifts, i2 \in Lifts, j2 \in Lifts :
-                          /\ Add(Lift(p, i1, j1), Lift(q, i2, j2)) = Add(p, q)
-                          /\ Neg(Lift(p, i1, j1)) = Neg(p)
-                          /\ OnCurve(Lift(p, i1, j1))
-AddIsDLogAdd(p, q) == DLog[Add(p, q)] = (DLog[p] + DLog[q]) % N
+\* the result is the same group element whichever integer representatives are presented:
+\* every lift of p with q fixed, every lift of q with p fixed, and both lifted together
+ReprInvariant(p, q) == \A i \in Lifts, j \in Lifts :
+                          /\ Add(Lift(p, i, j), q) = Add(p, q)
+                          /\ Add(p, Lift(q, i, j)) = Add(p, q)
+                          /\ Add(Lift(p, i, j), Lift(q, j, i)) = Add(p, q)
+                          /\ Neg(Lift(p, i, j)) = Neg(p)
+                          /\ OnCurve(Lift(p, i, j))
 KRange == (0 - 2 * N)..(2 * N)
-MulIsIterated(p) == \A k \in KRange : Mul(k, p) = MulT(k, p)
-MulStep(p)    == /\ MulT(0, p) = Inf
-                 /\ \A k \in KRange : MulT(k + 1, p) = Add(MulT(k, p), p)
-                 /\ \A k \in KRange : MulT(0 - k, p) = Neg(MulT(k, p))
-OrderKills(p) == MulT(N, p) = Inf /\ MulT(2 * N, p) = Inf /\ MulT(0 - N, p) = Inf
-                 /\ (p # Inf => \A k \in 1..(N - 1) : MulT(k, p) # Inf)
-MulPeriodic(p) == \A k \in KRange : MulT(k, p) = MulT(k % N, p) /\ MulT(k + N, p) = MulT(k, p)
+MulIsIterated(p) == \A k \in KRange : Mul(k, p) = SMul(k, p)
+MulStep(p)    == /\ SMul(0, p) = Inf
+                 /\ \A k \in KRange : SMul(k + 1, p) = Add(SMul(k, p), p)
+                 /\ \A k \in KRange : SMul(0 - k, p) = Neg(SMul(k, p))
+OrderKills(p) == SMul(N, p) = Inf /\ SMul(2 * N, p) = Inf /\ SMul(0 - N, p) = Inf
+                 /\ (p # Inf => \A k \in 1..(N - 1) : SMul(k, p) # Inf)
+MulPeriodic(p) == \A k \in KRange : SMul(k, p) = SMul(k % N, p) /\ SMul(k + N, p) = SMul(k, p)
 SmallK == (0 - 3)..3 \cup {N - 1, N, N + 1}
 MulHomomorphic(p, q) ==
-     /\ \A k \in SmallK : MulT(k, Add(p, q)) = Add(MulT(k, p), MulT(k, q))
-     /\ \A j \in SmallK, k \in SmallK : /\ MulT(j + k, p) = Add(MulT(j, p), MulT(k, p))
-                                        /\ MulT(j * k, p) = MulT(j, MulT(k, p))
+     /\ \A k \in {0 - 1, 2, 3} : SMul(k, Add(p, q)) = Add(SMul(k, p), SMul(k, q))
+     /\ \A j \in SmallK, k \in SmallK : /\ SMul(j + k, p) = Add(SMul(j, p), SMul(k, p))
+                                        /\ SMul(j * k, p) = SMul(j, SMul(k, p))
 \* the generator's blinded fixed-base multiplication: (k + b)*G + (-b)*G
 BlindedGenMul(k, b) == Add(GMul(k + b), GMul(0 - b))
-BlindingCancels(b) == \A k \in KRange : BlindedGenMul(k, b) = MulT(k, G)
+BlindingCancels(b) == \A k \in KRange : BlindedGenMul(k, b) = SMul(k, G)
 PointsForXOk(x) == LET r == PointsForX(x) IN
      /\ Cardinality(YsFor(x)) \in {0, 2}
      /\ r # <<>> => /\ r[1] \in Affine /\ r[2] \in Affine /\ r[1] # r[2]
